@@ -119,6 +119,13 @@ class ApplyExpression(Expression[Result]):
         self.kwargs = kwargs
         self._upstreams = [args, kwargs]
 
+    def is_valid(self) -> bool:
+        # A cached expression is only reusable while every value among its arguments still is.
+        return all(
+            not isinstance(value, Value) or value.is_valid()
+            for value in iter_nested_value((self.args, self.kwargs))
+        )
+
 
 def format_arguments(args: tuple, kwargs: dict) -> str:
     """
@@ -215,10 +222,7 @@ class TaskExpression(ApplyExpression[Result]):
     def is_valid(self) -> bool:
         from redun.task import get_task_registry
 
-        return bool(get_task_registry().get(self.task_name)) and all(
-            not isinstance(value, Value) or value.is_valid()
-            for value in iter_nested_value((self.args, self.kwargs))
-        )
+        return bool(get_task_registry().get(self.task_name)) and super().is_valid()
 
 
 class SimpleExpression(ApplyExpression[Result]):
